@@ -185,7 +185,7 @@ def main(tier: str) -> int:
         third = est.predict(Xn)
         snap2 = (str(est.get_tree()) if hasattr(est, "tree_") else None,
                  None if not hasattr(est, "net_") else (est.get_net()._connects.tolist(), est.get_net()._weights.tolist()))
-        same = (lambda a, b: all((str(x) == str(z)) or (isinstance(x, float) and math.isnan(x) and math.isnan(z)) or (not isinstance(x, str) and np.isclose(float(x), float(z), rtol=1e-12, atol=0, equal_nan=True)) for x, z in zip(a, b))) \
+        same = (lambda a, b: all((str(x) == str(z)) or (isinstance(x, float) and math.isnan(x) and math.isnan(z)) or (not isinstance(x, str) and np.isclose(float(x), float(z), rtol=1e-9, atol=1e-12, equal_nan=True)) for x, z in zip(a, b))) \
             if kind == "reg" else (lambda a, b: [str(x) for x in a] == [str(z) for z in b])
         if not (same(pred, again) and same(pred, third)) or snap != snap2:
             chk.fail("predict changes the model or depends on earlier predict calls", d, {**feats, "clause": "pure"})
